@@ -47,10 +47,10 @@ def isfuncs():
 def commb_hex(ctx, mb, df=None, altcode=None):
     rng = ctx.rng
     df = df or rng.choice((20, 21))
-    hdr = rng.getrandbits(27)
+    hdr = rng.fill(27)
     if altcode is not None:
         hdr = (hdr & ~0x1FFF) | altcode
-    hx = "%028X" % bits.commb_frame(df, hdr, mb, rng.getrandbits(24))
+    hx = "%028X" % bits.commb_frame(df, hdr, mb, rng.fill(24))
     return hx.lower() if rng.random() < 0.1 else hx
 
 
@@ -164,7 +164,7 @@ def b45(rng):
 
 
 def b10(rng):
-    mb = put(rng.getrandbits(56), 1, 8, 0x10)
+    mb = put(rng.fill(56), 1, 8, 0x10)
     mb = put(mb, 10, 14, 0)
     ovc = rng.randrange(2)
     mb = put(mb, 15, 15, ovc)
@@ -173,7 +173,7 @@ def b10(rng):
 
 
 def b17(rng):
-    caps = rng.getrandbits(24) | (1 << (24 - 7))  # BDS 2,0 capability
+    caps = rng.fill(24) | (1 << (24 - 7))  # BDS 2,0 capability
     return caps << 32
 
 
@@ -190,7 +190,7 @@ def b20(rng):
 
 
 def b30(rng):
-    mb = put(rng.getrandbits(56), 1, 8, 0x30)
+    mb = put(rng.fill(56), 1, 8, 0x30)
     mb = put(mb, 29, 30, rng.randint(0, 2))
     return put(mb, 16, 22, rng.randint(0, 47))
 
@@ -361,7 +361,7 @@ def m_t4(ctx, case):
     for _ in range(case["n"]):
         kind = rng.random()
         if kind < 0.15:
-            mb = rng.getrandbits(56)            # mostly not both
+            mb = rng.fill(56)            # mostly not both
         elif kind < 0.25:
             mb = b50(rng)
         else:
@@ -512,11 +512,11 @@ def cases(ctx):
     msgs = []
     for tc in range(32):
         for df in (17, 18):
-            msgs.append("%028X" % bits.es_frame(df, 5, rng.getrandbits(24), (tc << 51) | rng.getrandbits(51)))
+            msgs.append("%028X" % bits.es_frame(df, 5, rng.fill(24), (tc << 51) | rng.fill(51)))
     for df in range(32):
-        msgs.append("%028X" % bits.with_pi((df << 83) | (rng.getrandbits(27) << 56), 112, 0))  # EMPTY
+        msgs.append("%028X" % bits.with_pi((df << 83) | (rng.fill(27) << 56), 112, 0))  # EMPTY
         for _ in range(6):
-            msgs.append("%028X" % bits.with_pi((df << 83) | rng.getrandbits(83), 112, rng.getrandbits(24)))
+            msgs.append("%028X" % bits.with_pi((df << 83) | rng.fill(83), 112, rng.fill(24)))
     for k in range(0, len(msgs), 64):
         if ctx.mine(i):
             yield "t0", {"msgs": msgs[k:k + 64]}
@@ -532,10 +532,10 @@ def cases(ctx):
         ms = []
         for _ in range(100):
             df = rng.choice((20, 21, 20, 21, 17, rng.randrange(32)))
-            mb = rng.getrandbits(56)
+            mb = rng.fill(56)
             if rng.random() < 0.5:  # sparse payloads satisfy more format rules
-                mb &= rng.getrandbits(56) & rng.getrandbits(56)
-            hx = "%028X" % bits.with_pi((df << 83) | (rng.getrandbits(27) << 56) | mb, 112, rng.getrandbits(24))
+                mb &= rng.fill(56) & rng.fill(56)
+            hx = "%028X" % bits.with_pi((df << 83) | (rng.fill(27) << 56) | mb, 112, rng.fill(24))
             ms.append(hx.lower() if rng.random() < 0.1 else hx)
         yield "t0", {"msgs": ms}
     regs = ["BDS10", "BDS17", "BDS20", "BDS30", "BDS40", "BDS44", "BDS45", "BDS50", "BDS60"]
